@@ -154,6 +154,7 @@ func genSm2obj(r *rng, tier string, emit func(string)) {
 }
 
 func genC01(r *rng, tier string, emit func(string)) {
+	defer genSm2hist(r, tier, emit) // histories over families of near-equal IDs / messages (c01hist.go), after everything else
 	n := 50
 	if tier == "thorough" {
 		n = 800
